@@ -505,7 +505,16 @@ class RBool:
 
     def __xor__(self, other):
         return self._logic(other, lambda a, b: a ^ b)
-    __rand__ = __and__   # the API defines no reflected or / xor on booleans
+    __rand__ = __and__
+
+    # the API defines no reflected | and ^ on booleans (TypeError for `1 | b`): raising is allowed, a returned value must be Python's
+    def __ror__(self, other):
+        flag("reflected | on a boolean: the API may refuse")
+        return self.__or__(other)
+
+    def __rxor__(self, other):
+        flag("reflected ^ on a boolean: the API may refuse")
+        return self.__xor__(other)
 
     def _cmp(self, other, name):
         if isinstance(other, (RFxp, float)):
